@@ -17,7 +17,11 @@ class SPEC:
             "value spills into its successors); user-made elements whose declared length is 0 / below / equal to / above the type's width "
             "(up to 255, 65534, 65535), strings with a fixed declared length, octet arrays fixed and variable, unsupported types. "
             "`recbufx <elems> <k>`: the same records GROWN after their buffer was taken once (built from the first k elements, GetBuffer, "
-            "the rest appended one by one with AddInfoElement, GetBuffer after each) - same length and bytes as built in one go.")
+            "the rest appended one by one with AddInfoElement, GetBuffer after each) - same length and bytes as built in one go. "
+            "`ie mut <ie> <v1> <v2|reset>`: an element made with v1, asked for its length, then given v2 through its typed setter or "
+            "reset, encodes (bytes and reported length) as a fresh element with the final value - every supported type, "
+            "variable-length values crossing the 254/255 boundary in both directions. The decoder's input buffer is overwritten "
+            "before the decoded values are looked at (values must be copies of the packet, not views of it).")
     assumptions = ["values are passed as bit patterns; Go's float32/float64 carry them unchanged (no arithmetic on the path)"]
     trusted = []
 
@@ -90,7 +94,28 @@ def gen_cases(rng, tier):
             add(["ie enc %s n0" % ie.tok()], "unsupported", False)
             add(["ie dec %s 0000000000000000" % ie.tok()], "unsupported", False)
     gen_recbuf(random.Random(rng.getrandbits(64)), tier, add)
+    gen_mut(random.Random(rng.getrandbits(64)), tier, add)
     return cases
+
+
+def gen_mut(rng, tier, add):
+    """`ie mut`: elements that live on - made with one value, given another through the typed setter or reset - must encode
+    (bytes AND reported length) like a fresh element with the final value; variable-length values cross the 254/255 boundary
+    in both directions"""
+    bt = G.by_type()
+    n = 40 if tier == "quick" else 1500
+    for ty in G.SUPPORTED:
+        ies = bt.get(ty) or [G.IE(55555, 100 + ty, ty, G.WIDTH.get(ty, {0: 65535, 13: 65535, 12: 6, 18: 4, 19: 16, 11: 1}.get(ty, 1)), "user%d" % ty)]
+        for _ in range(n):
+            ie = rng.choice(ies)
+            if ty in (0, 13) and ie.len == 65535:
+                l1, l2 = rng.choice([0, 1, 12, 254, 255, 256, 300]), rng.choice([0, 1, 12, 254, 255, 256, 300])
+                v1, v2 = "x" + G.hexs(G.rand_bytes(rng, l1)), "x" + G.hexs(G.rand_bytes(rng, l2))
+            else:
+                v1, v2 = G.well_typed_value(rng, ie, big_ok=False, maxlen=300), G.well_typed_value(rng, ie, big_ok=False, maxlen=300)
+            # a reset MAC / address / fixed-length octet array is an ill-typed value (no bytes): outside C15 (C09, D5)
+            can_reset = ty not in (12, 18, 19) and not (ty == 0 and ie.len < 65535)
+            add(["ie mut %s %s %s" % (ie.tok(), v1, "reset" if can_reset and rng.random() < 0.3 else v2)], "mut")
 
 
 # ---- `ie recbuf`: whole records against the exact model of GetBuffer (Ipfix.recordBuf) ----
@@ -262,7 +287,7 @@ def run(ctx):
             dist.add("outcome:" + (i or "missing").split(" ")[0])
             if i != m:
                 disagreements.append({"case": ci, "ops": c.ops, "impl": i[:400], "model": m[:400], "label": c.label})
-            if op.startswith("ie rt ") or (op.startswith("ie recbuf") and c.label != "recbuf-bad-token"):
+            if op.startswith("ie rt ") or op.startswith("ie mut ") or (op.startswith("ie recbuf") and c.label != "recbuf-bad-token"):
                 chk_lines.append("chk %s | %s" % (op, i))
                 chk_idx.append((ci, oi))
     verdicts = ctx.check_pred(chk_lines)
@@ -271,7 +296,7 @@ def run(ctx):
         if v != "holds":
             c = cases[ci]
             failures.append({"signature": "C15:%s:%s" % (c.label, v), "ops": c.ops, "impl": impl[ci][oi][:400],
-                             "model": model[ci][oi][:400], "predicate": {"name": "Ipfix.C15.holdsRecBuf" if c.ops[oi].startswith("ie recbuf") else "Ipfix.C15.holdsRT", "value": v}})
+                             "model": model[ci][oi][:400], "predicate": {"name": "Ipfix.C15.holdsRecBuf" if c.ops[oi].startswith("ie recbuf") else ("final value encodes as a fresh element (Ipfix.encodeElem / elemLength)" if c.ops[oi].startswith("ie mut") else "Ipfix.C15.holdsRT"), "value": v}})
     fail_cases = {tuple(f["ops"]) for f in failures}
     for d in disagreements:
         d["explained_by_predicate_failure"] = tuple(d["ops"]) in fail_cases
